@@ -121,6 +121,12 @@ class C05(core.Check):
                               {"s": RAW_DOM, "t": RAW_DOM, "d": [0, 3, -4]}, tag=f"two/{vn}"))
                 out.append(mk("two-inputs", B("<", V("x"), I(20)), B(">=", V("y"), I(80)), order, v, "signal-L",
                               {"x": cmp_dom([20]), "y": cmp_dom([80]), "d": [0, 3, -4]}, tag=f"two-thr/{vn}"))
+            # comparisons on two DIFFERENT inputs that carry the same signal type
+            for vn, v in vs.items():
+                out.append(mk("two-inputs-same-type", B("<", V("a"), I(20)), B(">=", V("b"), I(80)), order, v, "signal-L",
+                              {"a": cmp_dom([20]), "b": cmp_dom([80]), "d": [0, 3, -4]}, tag=f"same-type-thr/{vn}"))
+            out.append(mk("two-inputs-same-type", B(">", V("a"), I(0)), B(">", V("b"), I(0)), order, I(1), "signal-A",
+                          {"a": RAW_DOM, "b": RAW_DOM}, tag="same-type-cell-type"))
             # comparisons on one shared input (the inlined path)
             for lo, hi in ((20, 80), (50, 50), (80, 20)):
                 pairs = [(a, b) for a in CMP for b in CMP] if tier == "thorough" else \
